@@ -29,7 +29,7 @@ CAT = {
 }
 # in strict mode only patterns whose every match has a single spelling are used
 STRICT_OK = ['/a', '/a/', '/a/b', '/<x>', '/<x>/', '/a/<n:int>', '/<x>/<y>', '/a/<rest+>', '/c/<n:int>/']
-PATHS = ['/a?v=2', '/a/b?v=2', '/q?v=2', '/a?v=1', '/', '/a', '/a/', '/a/b', '/a/b/', '/a/7', '/b', '/b/q', '/q', '/q/', '/a/b/c', '//a', '/a//b', '/a/7/',
+PATHS = ['/a%0A', '/a/b%0A', '/q%0A', '/a/7%0A', '/%0A', '/a%0A/', '/a?v=2', '/a/b?v=2', '/q?v=2', '/a?v=1', '/', '/a', '/a/', '/a/b', '/a/b/', '/a/7', '/b', '/b/q', '/q', '/q/', '/a/b/c', '//a', '/a//b', '/a/7/',
          '/c/5', '/c/5/', '/c/x/', '/b/', '/a/07']
 METHODS = ['GET', 'HEAD', 'POST', 'PUT', 'DELETE', 'get', 'post', 'FOO', 'OPTIONS']
 METHOD_SETS = [None, None, [], ['GET'], ['POST'], ['get', 'PUT'], ['DELETE', 'POST'], ['HEAD'], ['GET', 'POST', 'PUT']]
